@@ -39,7 +39,10 @@ Inductive gop :=
 
 Inductive gevent :=
 | GSend (obj : option nat) (ops : list gop) (t : N)  (* on a new set object / on object obj: ops, then SendSet at time t *)
-| GRefresh (t : N).                                  (* the refresh ticker fires at time t *)
+| GRefresh (t : N)                                   (* the refresh ticker fires at time t *)
+| GReconnect (q : N).  (* CloseConnToCollector, then a NEW exporting process for the same collector and
+                          observation domain (counter set to q through the verif hook; 0 without it): the
+                          application keeps its set and element objects *)
 
 (* ---- one builder operation on a set object ---- *)
 Definition obj_step (o : oset) (p : op) (tag : option nat) : oset :=
@@ -117,7 +120,8 @@ Definition freeze (n : nat) (ms : list rmeta) : list rmeta :=
 
 Inductive gout :=
 | OSent (st : exp) (s : setb) (t : N) (x : sent)           (* state before, the set as SendSet saw it, the call *)
-| ORefresh (st : exp) (t : N) (r : outcome (list sent)).
+| ORefresh (st : exp) (t : N) (r : outcome (list sent))
+| OReconn (st : exp) (q : N).                               (* the state of the process that was closed *)
 
 Definition last_state (st : exp) (xs : list sent) : exp :=
   match rev xs with x :: _ => r_st x | [] => st end.
@@ -140,6 +144,10 @@ Definition gstep (fx : fixes) (w : world) (e : gevent) : world * gout :=
       let st := w_exp w in
       let r := if x_udp st then refresh fx st t else Ok [] in
       (mkW (match r with Ok xs => last_state st xs | _ => st end) (w_objs w) (w_pool w), ORefresh st t r)
+  | GReconnect q =>
+      let st := w_exp w in
+      (* InitExportingProcess: sequence number 0 (then the hook), empty template map *)
+      (mkW (mkExp (x_obs st) (u32 q) [] (x_udp st)) (w_objs w) (w_pool w), OReconn st q)
   end.
 
 Fixpoint grun (fx : fixes) (w : world) (h : list gevent) : list gout :=
